@@ -5154,6 +5154,26 @@ val walk_roots : callback -> bool -> (str * entry list) list -> str list res
 
 val read_files : wopts -> str list -> (str * entry list) list -> str list res
 
+type gent =
+| GFile of str
+| GDir of str * nat
+| GSymFile of str
+| GSymDir of str * nat
+
+type gworld = (nat * gent list) list
+
+val content : gworld -> nat -> gent list
+
+val on_path : nat -> nat list -> bool
+
+val all_some : 'a1 option list -> 'a1 list option
+
+val unfold_ent :
+  (nat list -> gent list -> entry list option) -> gworld -> nat list -> gent
+  -> entry option
+
+val unfold : nat -> gworld -> nat list -> gent list -> entry list option
+
 val as_entry : val0 -> entry
 
 val as_opts : val0 -> wopts
@@ -5169,6 +5189,14 @@ val d_model : val0 -> val0
 val d_spec0 : val0 -> val0
 
 val d_fn : val0 -> val0
+
+val as_gent : val0 -> gent
+
+val as_gworld : val0 -> gworld
+
+val of_entry : entry -> val0
+
+val d_unfold : val0 -> val0
 
 val dispatch_walk : z -> val0 -> val0 option
 
